@@ -119,10 +119,26 @@ ND_CALLS = {
 ND_ALLOWED = {
     ("safe_hash.__hash__", "hash"): "identity hash, never iterated or emitted",
     ("safe_hash.__hash__", "id"): "identity hash, never iterated or emitted",
-    ("Parser._get_child_filepath", "os.getcwd"): "only when parsing from a string: base directory of imports",
     ("Renderer.get_outdir_default", "os.getcwd"): "documented default of the output *directory*",
     ("Renderer.get_outdir_default", "os.path.abspath"): "documented default of the output *directory*",
 }
+
+
+def _only_feeds_import_path(call: ast.Call, fn: ast.AST) -> bool:
+    """os.getcwd() is returned, or bound to a local whose only uses are arguments of os.path.join / a return."""
+    par = parent(call)
+    if isinstance(par, ast.Return):
+        return True
+    if isinstance(par, ast.Call) and src_of(par.func) == "os.path.join":
+        return True
+    if isinstance(par, ast.IfExp):
+        return _only_feeds_import_path(par, fn)  # type: ignore[arg-type]
+    if isinstance(par, (ast.Assign, ast.AnnAssign)):
+        tg = par.targets[0] if isinstance(par, ast.Assign) else par.target
+        if isinstance(tg, ast.Name):
+            uses = [u for u in ast.walk(fn) if isinstance(u, ast.Name) and u.id == tg.id and isinstance(u.ctx, ast.Load)]
+            return bool(uses) and all(isinstance(parent(u), ast.Return) or (isinstance(parent(u), ast.Call) and src_of(parent(u).func) == "os.path.join") for u in uses)
+    return False
 
 
 @rule("A10", "no nondeterminism source or post-import global state on the compile path")
@@ -149,6 +165,17 @@ def a10(repo: Repo) -> RuleResult:
                     n_calls += 1
                     q = qualname(n)
                     why = ND_ALLOWED.get((q, name))
+                    if why is None and name == "os.getcwd" and q.startswith("Parser."):
+                        # the base directory of imports when a string is parsed: wherever the helpers put it,
+                        # B5 establishes that it only reaches the child parser under `not current_filepath()`
+                        try:
+                            from .rules_b import import_path_analysis
+
+                            _i, bad_i, unsure_i, helpers_i = import_path_analysis(repo)
+                            if q.split(".", 1)[1] in helpers_i and not bad_i and not unsure_i and _only_feeds_import_path(n, fi.node):
+                                why = "only when parsing from a string: base directory of imports (B5 import-path)"
+                        except Inconclusive:
+                            pass
                     res.inst(part="sources", where=q, call=name, allowed=why)
                     if why is None:
                         res.bad(Finding("A10", fi.rel, n.lineno, q, src_of(n), f"{name}() on the compile path: output may depend on process / directory / time", witness="compile the same schema from two working directories / with two PYTHONHASHSEED values", tag=f"{q}:{name}"))
